@@ -474,6 +474,35 @@ func compCmp(o *out, seed uint64, tier string) {
 		}
 		emit(&cmpCase{src: src, algo: algo, depth: d, dstlen: dl, ep: r.intn(4), hist: r.intn(3), stale: r.intn(1000)}, "medium")
 	}
+	// 3b. end of block: a repeat placed so that the best match would start in the last 5..16 bytes
+	//     (C10: the last match starts at least twelve bytes before the end, the last five bytes are
+	//     literals), for every such position and several lengths, both algorithms
+	for rep := 0; rep < mult; rep++ {
+		for n := 20; n <= 76; n += 7 {
+			for k := 4; k <= 17; k++ {
+				src := r.bytes(n)
+				l := 4 + r.intn(8)
+				if n-k < 10 {
+					continue
+				}
+				for j := 0; j < l && n-k+j < n; j++ {
+					src[n-k+j] = src[2+j] // the bytes at 2.. recur at n-k..
+				}
+				if r.intn(2) == 0 {
+					for j := n - k; j < n; j++ {
+						src[j] = src[n-k-1] // a run reaching the very end
+					}
+				}
+				for _, algo := range []string{"fast", "hc"} {
+					d := 0
+					if algo == "hc" {
+						d = hcDepths[r.intn(len(hcDepths))]
+					}
+					emit(&cmpCase{src: src, algo: algo, depth: d, dstlen: lz4.CompressBlockBound(n), ep: 1, stale: r.intn(1000)}, "repeat-near-the-end")
+				}
+			}
+		}
+	}
 	// 4. large sources: beyond 64 KiB the fast compressor keeps only 16-bit table positions
 	nl := 6
 	if tier == "thorough" {
